@@ -47,6 +47,26 @@ def gen(seed, tier):
                 lines = [g.any_frame(r.choice(pool)) for _ in range(r.randint(0, 3))] + [sentinel(g)]
                 segs.append(seg(0, lines))
         cases.append(("C18-%d" % i, "T", opts_str({"i": "x", "u": -1, "o": "x"}), ";".join(segs)))
+    # a connection that has been up for longer than the retry pause when it is reset in the middle of a line
+    pool = r.sample([x for x in ICAOS if x != SENT], 3)
+    lines = [g.any_frame(r.choice(pool)) for _ in range(3)]
+    part = g.any_frame(r.choice(pool))[:9]
+    cases.append(("C18-long", "T", opts_str({"i": "x", "u": -1, "o": "x"}),
+                  ";".join([blob(7, ("\n".join(lines) + "\n" + part).encode()), seg(0, [sentinel(g)])])))
+    # the same interruptions with the downlink log (-D) switched on: every connection writes to it
+    for i, sc in enumerate([[1, 0], [2, 5, 0]]):
+        pool = r.sample([x for x in ICAOS if x != SENT], 3)
+        segs = []
+        for ev in sc:
+            if ev == 5:
+                segs.append("5:")
+            elif ev == 2:
+                segs.append(blob(2, ("\n".join(g.any_frame(r.choice(pool)) for _ in range(3)) + "\n8D4").encode()))
+            elif ev == 1:
+                segs.append(seg(1, [g.any_frame(r.choice(pool)) for _ in range(3)]))
+            else:
+                segs.append(seg(0, [g.any_frame(r.choice(pool)), sentinel(g)]))
+        cases.append(("C18-D%d" % i, "T", opts_str({"i": "x", "u": -1, "o": "x", "D": 1}), ";".join(segs)))
     # rows learned before an interruption survive it "subject to normal expiry": X is 5-6.5 s old (delete-after 7) when the
     # first sweep of the new connection runs; --update 2 so that a refresh shows the table after that sweep
     pool = r.sample([x for x in ICAOS if x != SENT], 3)
@@ -86,7 +106,7 @@ def oracle(parts, outcome, obs):
         fails.append("the decoder terminated during the session")
     events = [int(s.split(":", 1)[0]) for s in parts[3].split(";") if s]
     want_conns = sum(1 for e in events if e != 3)
-    events = [0 if e == 6 else e for e in events]
+    events = [0 if e == 6 else (2 if e == 7 else e) for e in events]
     if int(d["conns"]) != want_conns:
         fails.append("connections accepted %s, expected %d" % (d["conns"], want_conns))
     keys = set(k for k in d["keys"].split(",") if k)
